@@ -78,7 +78,10 @@ impl Txtpp {
 
         let progress = Progress::new(config.verbosity.clone());
 
-        let threadpool = Builder::new().num_threads(config.num_threads).build();
+        // the pool cannot be built with zero threads (it asserts): always use at least one worker
+        let threadpool = Builder::new()
+            .num_threads(config.num_threads.max(1))
+            .build();
         let (send, recv) = mpsc::channel();
 
         let mut runtime = Self {
